@@ -45,6 +45,7 @@ func (g *Graph) Dijkstra(src Vertex) (distTo map[interface{}]int, edgeTo map[int
 	for queue.Len() > 0 {
 		// U <- Extract MIN from Q
 		u := heap.Pop(&queue).(*distQueueItem)
+		verifPop(u.v)
 		visited[u.v] = struct{}{}
 
 		// for each unvisited neighbour V of U
